@@ -467,6 +467,15 @@ func (s *Server) attachClient(cl *Client, listener string) error {
 	}
 
 	verifPoint("attach.connack_sent", cl.ID)
+	if lwt, ok := s.loop.willDelayed.Get(cl.ID); ok && pk.Connect.Clean {
+		// A clean start ends the previous session, so its delayed will is due now rather
+		// than never: only a connection that resumes the session cancels it [MQTT-3.1.3-9].
+		s.publishToSubscribers(lwt)
+		if lwt.FixedHeader.Retain {
+			s.retainMessage(cl, lwt)
+		}
+		s.hooks.OnWillSent(cl, lwt)
+	}
 	s.loop.willDelayed.Delete(cl.ID) // [MQTT-3.1.3-9]
 
 	if sessionPresent {
